@@ -49,8 +49,10 @@ impl AtomicBool {
     pub uninterp spec fn may_reset(&self) -> bool;
     /// one-shot election (compare_exchange(false,true) on a never-reset flag)
     pub uninterp spec fn elected(&self) -> bool;
+    /// issued fact: a load during this call returned `false`
+    pub uninterp spec fn observed_false(&self) -> bool;
     #[verifier::external_body]
-    pub fn load(&self, o: Ordering) -> (b: bool) ensures b && !self.may_reset() ==> self.ever_true() { unimplemented!() }
+    pub fn load(&self, o: Ordering) -> (b: bool) ensures b && !self.may_reset() ==> self.ever_true(), !b ==> self.observed_false() { unimplemented!() }
     #[verifier::external_body]
     pub fn store(&self, v: bool, o: Ordering) requires v == true || self.may_reset(), ensures v ==> self.ever_true() { unimplemented!() }
     #[verifier::external_body]
